@@ -198,14 +198,29 @@ def main(argv=None):
         for sh in range(n):
             tasks.append((prop, a.tier, seed, s["name"], sh, n, known_sigs, deadline))
     results = []
+    abandoned = []
     if tasks:
         jobs = max(1, min(a.jobs, len(tasks)))
         if jobs == 1:
             results = [_task(t) for t in tasks]
         else:
             ctx_mp = mp.get_context("spawn")
+            # the soft deadline is honoured between cases; a single case that never returns (an endless loop inside a
+            # compiled third-party routine cannot be interrupted from Python) is cut off here: the pool is terminated at
+            # a hard limit and the shards that had not answered are reported as inconclusive, never as violations
+            hard = deadline + max(180.0, 0.5 * wall)
             with ctx_mp.Pool(jobs, maxtasksperchild=1) as pool:
-                results = list(pool.imap_unordered(_task, tasks, chunksize=1))
+                it = pool.imap_unordered(_task, tasks, chunksize=1)
+                for _ in range(len(tasks)):
+                    try:
+                        results.append(it.next(timeout=max(hard - time.time(), 0.1)))
+                    except mp.TimeoutError:
+                        break
+                pool.terminate()
+            answered = {(r["sub"], r["shard"]) for r in results}
+            for t in tasks:
+                if (t[3], t[4]) not in answered:
+                    abandoned.append(f"{t[3]}[{t[4]}]: no answer by the hard wall limit ({int(hard - t0)} s): a case did not return; shard abandoned")
     results.sort(key=lambda r: (r["sub"], r["shard"]))
 
     evaluations = 0
@@ -214,7 +229,7 @@ def main(argv=None):
     classes = {}
     samples = {}
     excluded = {}
-    inconclusive = []
+    inconclusive = list(abandoned)
     exhaustive = []
     per_sub = {}
     per_body = {}
